@@ -102,7 +102,10 @@ struct Scenario {
     prelude: Vec<Op>,
     fns: Vec<FnCtx>,
     progs: Vec<Vec<Op>>,
+    /// a group invalidation (whole cache) targets this function somewhere in the scenario
     has_invalidation: Vec<bool>,
+    /// slots some conditional invalidation of the scenario may remove, per function
+    cond_slots: Vec<BTreeSet<u32>>,
 }
 
 fn pick_functions(rng: &mut Rng, focus: &str) -> Vec<&'static FnDesc> {
@@ -116,6 +119,7 @@ fn pick_functions(rng: &mut Rng, focus: &str) -> Vec<&'static FnDesc> {
             "C14" => true,
             "C03" => !d.scope_thread && d.ttl.is_none() && d.max_memory.is_none(),
             "C01" => !d.scope_thread,
+            "C13" => !d.scope_thread && d.ttl.is_none() && d.max_memory.is_none(),
             "C09" => !d.scope_thread && d.is_result && d.limit.is_none() && d.ttl.is_none() && d.max_memory.is_none(),
             "C07" => !d.scope_thread && d.limit.is_some() && d.ttl.is_none() && d.max_memory.is_none() && matches!(d.policy, "fifo" | "lru"),
             "C08" => !d.scope_thread && d.limit.is_some() && d.ttl.is_none() && d.max_memory.is_none() && matches!(d.policy, "lfu" | "arc" | "tlru"),
@@ -160,7 +164,7 @@ fn gen_scenario(seed: u64, index: u64, focus: &str, jitter: bool) -> Scenario {
         let cap = d.limit.unwrap_or(2);
         // C03/C09: bounded caches take part with no more distinct keys than their limit, so that
         // nothing can be evicted and "computed once" still applies
-        let n = if matches!(focus, "C03" | "C09") && d.limit.is_some() { cap.min(d.nslots as usize).max(1) } else { (cap + 1 + rng.usize(2)).min(d.nslots as usize).max(1) };
+        let n = if (matches!(focus, "C03" | "C09" | "C13") || (focus == "C14" && index % 2 == 0)) && d.limit.is_some() { cap.min(d.nslots as usize).max(1) } else { (cap + 1 + rng.usize(2)).min(d.nslots as usize).max(1) };
         let off = if d.nslots as usize > n + 8 { rng.usize(d.nslots as usize - n - 8) } else { 0 };
         fns.push(FnCtx { d, slots: (0..n).map(|i| (off + i) as u32).collect(), keymap: BTreeMap::new(), fp: BTreeMap::new() });
     }
@@ -170,6 +174,7 @@ fn gen_scenario(seed: u64, index: u64, focus: &str, jitter: bool) -> Scenario {
     let any_ttl = fns.iter().any(|f| f.d.ttl.is_some());
     let mut progs = vec![];
     let mut has_invalidation = vec![false; fns.len()];
+    let mut cond_slots: Vec<BTreeSet<u32>> = vec![BTreeSet::new(); fns.len()];
     for _ in 0..nthreads {
         let mut p = vec![];
         for _ in 0..nops {
@@ -178,6 +183,7 @@ fn gen_scenario(seed: u64, index: u64, focus: &str, jitter: bool) -> Scenario {
             let (w_invw, w_invall, w_group, w_stats, w_adv) = match focus {
                 "C03" | "C14" | "C09" | "C07" | "C08" => (0, 0, 0, 2, 0),
                 "C01" => (8, 3, 6, 2, if any_ttl { 5 } else { 0 }),
+                "C13" => (22, 8, 0, 2, 0),
                 "C15" => (6, 3, 5, 6, if any_ttl { 5 } else { 0 }),
                 "C12" => (0, 0, 16, 26, 0),
                 _ => (14, 6, 10, 5, if any_ttl { 5 } else { 0 }),
@@ -186,7 +192,7 @@ fn gen_scenario(seed: u64, index: u64, focus: &str, jitter: bool) -> Scenario {
             if r < acc && !shared.is_empty() {
                 let f = *rng.pick(&shared);
                 let slots: Vec<u32> = fns[f].slots.iter().copied().filter(|_| rng.chance(1, 2)).collect();
-                has_invalidation[f] = true;
+                cond_slots[f].extend(slots.iter().copied());
                 p.push(Op::InvWith { f, slots });
                 continue;
             }
@@ -196,7 +202,7 @@ fn gen_scenario(seed: u64, index: u64, focus: &str, jitter: bool) -> Scenario {
                 for f in &shared {
                     if rng.chance(2, 3) {
                         let slots: Vec<u32> = fns[*f].slots.iter().copied().filter(|_| rng.chance(1, 2)).collect();
-                        has_invalidation[*f] = true;
+                        cond_slots[*f].extend(slots.iter().copied());
                         pairs.push((*f, slots));
                     }
                 }
@@ -297,7 +303,7 @@ fn gen_scenario(seed: u64, index: u64, focus: &str, jitter: bool) -> Scenario {
             }
         }
     }
-    Scenario { index, cold, prelude, fns, progs, has_invalidation }
+    Scenario { index, cold, prelude, fns, progs, has_invalidation, cond_slots }
 }
 
 fn norm_site(s: &str) -> String {
@@ -620,7 +626,9 @@ fn run_scenario(rep: &mut Report, sc: &mut Scenario, seed: u64, mode: &str, focu
         // C03 / C14 shared visibility: no execution after a storing call returned (unbounded, never invalidated)
         let never_evicts = d.limit.map_or(true, |n| f.slots.len() <= n);
         if never_evicts && d.ttl.is_none() && d.max_memory.is_none() && !sc.has_invalidation[fi] && !d.has_invalidate_on {
-            for c in calls.iter().filter(|r| r.executed) {
+            // slots that a conditional invalidation of this scenario may remove are exempt; for
+            // all other slots an entry, once stored, must stay (C13: "keep the rest")
+            for c in calls.iter().filter(|r| r.executed && !sc.cond_slots[fi].contains(&r.slot)) {
                 rep.count("C03", "executions_checked_against_history", 1);
                 if d.is_result {
                     rep.count("C09", "executions_checked_against_history", 1);
@@ -629,6 +637,8 @@ fn run_scenario(rep: &mut Report, sc: &mut Scenario, seed: u64, mode: &str, focu
                 if let Some(prev) = calls.iter().find(|p| p.executed && !p.ran_err && p.slot == c.slot && p.ret < c.inv) {
                     let p = if prev.thread != c.thread { "C14" } else { "C03" };
                     let p = if focus == "C03" { "C03" } else if d.is_result && (focus == "C09" || calls.iter().any(|x| x.ran_err && x.slot == c.slot)) { "C09" } else { p };
+                    // the function was the target of conditional invalidations that did not select this key
+                    let p = if !sc.cond_slots[fi].is_empty() && matches!(focus, "C13" | "C18" | "C17") { "C13" } else { p };
                     fail(rep, p, "executed-after-a-storing-call-returned", f, format!("{} slot {}: thread {} executed the body (invoked at {}) although thread {}'s executing call had returned at {}", d.fn_name, c.slot, c.thread, c.inv, prev.thread, prev.ret), json!({"fid": d.fid}));
                     return Outcome { status: "ok" };
                 }
